@@ -21,6 +21,20 @@ pub(crate) fn statement_first(statement: &Statement) -> usize {
         .unwrap_or(0)
 }
 
+/// Returns the number of line breaks written in front of the first token of the statement
+/// (blank lines and comments attached to it).
+pub(crate) fn statement_leading_lines(statement: &Statement) -> usize {
+    first_statement_token(statement)
+        .map(|token| {
+            token
+                .iter_leading_trivia()
+                .filter_map(|trivia| trivia.try_read())
+                .map(|content| content.chars().filter(|c| *c == '\n').count())
+                .sum()
+        })
+        .unwrap_or(0)
+}
+
 fn get_token_line(token: &Token) -> Option<usize> {
     token
         .iter_trailing_trivia()
